@@ -203,6 +203,19 @@ pub fn cmp3(a: &RVal, b: &RVal) -> Option<Ordering> {
     }
 }
 
+/// all pairs comparable under the specified order? (a sort with an inconsistent comparator
+/// must never be attempted)
+pub fn all_comparable(keys: &[&RVal]) -> bool {
+    for i in 0..keys.len() {
+        for j in i + 1..keys.len() {
+            if cmp3(keys[i], keys[j]).is_none() {
+                return false;
+            }
+        }
+    }
+    true
+}
+
 // ---------------------------------------------------------------- decimals (number as string)
 
 pub fn parse_nas(s: &str) -> Result<Option<(BigInt, i64)>, ()> {
@@ -611,7 +624,10 @@ impl Evaluator {
                     "sort_by" => {
                         // stable, nothing keys first
                         let mut idx: Vec<usize> = (0..list.len()).collect();
-                        let mut unknown = false;
+                        let mut unknown = !all_comparable(&results.iter().flatten().collect::<Vec<_>>());
+                        if unknown {
+                            return U;
+                        }
                         idx.sort_by(|a, b| match (&results[*a], &results[*b]) {
                             (None, None) => Ordering::Equal,
                             (None, Some(_)) => Ordering::Less,
@@ -761,7 +777,10 @@ impl Evaluator {
             },
             "sort" | "sort_unique" => {
                 let Some(RVal::Arr(mut a)) = get!(0) else { return nothing() };
-                let mut unknown = false;
+                let mut unknown = !all_comparable(&a.iter().collect::<Vec<_>>());
+                if unknown {
+                    return U;
+                }
                 a.sort_by(|x, y| {
                     cmp3(x, y).unwrap_or_else(|| {
                         unknown = true;
@@ -1009,7 +1028,10 @@ impl Evaluator {
                     }
                     _ => {
                         let mut idx: Vec<usize> = (0..o.len()).collect();
-                        let mut unknown = false;
+                        let mut unknown = !all_comparable(&rs.iter().flatten().collect::<Vec<_>>());
+                        if unknown {
+                            return U;
+                        }
                         idx.sort_by(|a, b| match (&rs[*a], &rs[*b]) {
                             (None, None) => Ordering::Equal,
                             (None, Some(_)) => Ordering::Less,
@@ -1062,7 +1084,10 @@ impl Evaluator {
             },
             "sort_by_values" => match get!(0) {
                 Some(RVal::Obj(mut o)) => {
-                    let mut unknown = false;
+                    let mut unknown = !all_comparable(&o.iter().map(|m| &m.1).collect::<Vec<_>>());
+                    if unknown {
+                        return U;
+                    }
                     o.sort_by(|a, b| {
                         cmp3(&a.1, &b.1).unwrap_or_else(|| {
                             unknown = true;
@@ -1222,6 +1247,17 @@ impl Evaluator {
                         let dim = [31, if leap { 29 } else { 28 }, 31, 30, 31, 30, 31, 31, 30, 31, 30, 31];
                         (1970..=9999).contains(&y) && (1..=12).contains(&m) && d >= 1 && d <= dim[(m - 1) as usize] && hh <= 23 && mm <= 59 && ss <= 59
                     };
+                    // the same with a fraction of up to six digits (`%.f`): microseconds are kept
+                    if f == "parse_time" && fmt == "%Y-%m-%dT%H:%M:%S%.f" && b.len() > 20 && b.len() <= 26 && b[19] == b'.' && b[4] == b'-' && b[7] == b'-' && b[10] == b'T' && b[13] == b':' && b[16] == b':' {
+                        if let (Some(y), Some(m), Some(d), Some(hh), Some(mm), Some(ss), Some(fr)) = (digits(0..4), digits(5..7), digits(8..10), digits(11..13), digits(14..16), digits(17..19), digits(20..b.len())) {
+                            if valid(y, m, d, hh, mm, ss) {
+                                let micros = fr * 10i64.pow((6 - (b.len() - 20)) as u32);
+                                let total = (days_from_civil(y, m, d) * 86400 + hh * 3600 + mm * 60 + ss) * 1_000_000 + micros;
+                                return num_result(total as f64 / 1e6);
+                            }
+                            return U;
+                        }
+                    }
                     if f == "parse_time" && fmt == "%Y-%m-%dT%H:%M:%S" && b.len() == 19 && b[4] == b'-' && b[7] == b'-' && b[10] == b'T' && b[13] == b':' && b[16] == b':' {
                         if let (Some(y), Some(m), Some(d), Some(hh), Some(mm), Some(ss)) = (digits(0..4), digits(5..7), digits(8..10), digits(11..13), digits(14..16), digits(17..19)) {
                             if valid(y, m, d, hh, mm, ss) {
@@ -1312,7 +1348,9 @@ impl Evaluator {
 // ---------------------------------------------------------------- comparison with what jawk printed
 
 fn close(a: f64, b: f64) -> bool {
-    a == b || (a - b).abs() <= 1e-12 * a.abs().max(b.abs())
+    // the reference performs the documented operations in the documented (left to right) order
+    // in double precision; a few units in the last place are allowed for printing and reading
+    a == b || (a - b).abs() <= 1e-15 * a.abs().max(b.abs())
 }
 
 /// value equality with the tolerance the documentation leaves (floating point results) and,
